@@ -86,9 +86,14 @@ def tail(e):
 
 
 def compare(e):
-    """(left, op-class, right) for a single-operator Compare else None"""
+    """(left, op-class, right) for a single-operator Compare else None.
+    Normalised so that a constant operand is on the right (`0 == x` is read as `x == 0`,
+    `(1, 1) > v` as `v < (1, 1)`): recognisers do not depend on operand order."""
     if isinstance(e, ast.Compare) and len(e.ops) == 1:
-        return e.left, type(e.ops[0]), e.comparators[0]
+        l, op, r = e.left, type(e.ops[0]), e.comparators[0]
+        if op in FLIP and is_const(l) and not is_const(r):
+            return r, FLIP[op], l
+        return l, op, r
     return None
 
 
